@@ -32,6 +32,7 @@ type c12hConn struct {
 type c12hCase struct {
 	Listener string     `json:"listener"` // plain | tls | mitm
 	Conns    []c12hConn `json:"conns"`
+	Emfile   int        `json:"emfile"` // the proxy's next k accept calls fail like EMFILE/ENFILE (temporary, not a time-out)
 	WOne     int        `json:"w_one"`
 	WRand    int        `json:"w_rand"`
 }
@@ -130,6 +131,9 @@ func genC12h(t *tape.Tape, tier string) any {
 		b, k := genC12hBlob(t)
 		c.Conns = append(c.Conns, c12hConn{Blob: b, Kind: k, After: []string{"wait", "half-close", "close"}[t.Pick(3, 2, 2)]})
 	}
+	if t.Chance(1, 6) {
+		c.Emfile = 1 + t.Intn(3)
+	}
 	c.WOne = t.Pick(6, 2, 1)
 	c.WRand = t.Pick(2, 4, 2) * 2
 	return c
@@ -171,6 +175,12 @@ func runC12h(env *core.Env, ci any) {
 	if err != nil {
 		env.Fail("harness-start", "", "start: %v", err)
 		return
+	}
+	if c.Emfile > 0 {
+		if l := n.ListenerAt(s.Addr); l != nil {
+			l.InjectTempErrors(c.Emfile)
+			env.Fault("accept-fails-temporarily")
+		}
 	}
 	open := func(node string) (net.Conn, *simnet.Conn, bool) {
 		raw, err := n.Dial(context.Background(), node, s.Addr)
